@@ -135,6 +135,9 @@ def install(ctx):
                     for q in range(i + 1, len(pre)):
                         if rv[i] == rv[q]:
                             allow += 2 * cfg["kappa"] / (var[i] + var[q] + 2 * cfg["beta"] ** 2)
+            th = [math.fsum(s_["mu"] for s_ in tp) for tp in pre]
+            c_low = math.sqrt(2.0) * cfg["beta"]
+            allow += math.fsum(8 * EPS * (1 + abs(th[i] - th[q]) / c_low) / c_low for i in range(len(th)) for q in range(len(th)) if q != i)
             ctx.ev("C07/conservation")
             if not abs(S) <= allow:
                 ctx.violation("C07/conservation", "pytest", dict(model=_name), dict(S=S, allowance=allow), _name, "pytest")
